@@ -476,7 +476,9 @@ pub fn run(part: &mut Part) {
             alpha.push(Op::Persist(true));
             alpha.push(Op::app(QA, Pos::Auto, Sz::XL));
             let profiles = if TINY {
-                vec![prof("seeds x (A_write + Persist + XL)", seeds, alpha.clone(), if q { 2 } else { 3 }), light_seeds_prof(alpha, if q { 1 } else { 2 }, q)]
+                vec![prof("seeds x (A_write + Persist + XL)", seeds, alpha.clone(), if q { 2 } else { 3 }), light_seeds_prof(alpha, if q { 1 } else { 2 }, q),
+                    // a GC pass that has to record the positions of thirty-odd empty queues
+                    prof("32 queues, most of them empty x (truncate, append)", vec![seed_many_queues()], vec![Op::Trunc { q: QA, at: Tr::Last }, Op::Trunc { q: QA, at: Tr::First }, Op::app(QA, Pos::Auto, Sz::S3), Op::Delete(QA)], if q { 1 } else { 2 })]
             } else {
                 vec![prof("seeds x (A_write + Persist + XL)", seeds, alpha, if q { 1 } else { 2 })]
             };
@@ -933,6 +935,15 @@ pub fn replay(path: &str) -> i32 {
         "frame" => {
             let g = |k: &str| case[k].as_u64().map(|v| v as usize);
             let mut entries: Vec<Vec<u8>> = vec![];
+            if let (Some(k), Some(n), Some(small)) = (g("frame_count_boundary"), g("small_entries_before"), g("small_entry_len")) {
+                let _ = k;
+                for i in 0..n {
+                    entries.push(crate::frame::entry_bytes(i % 200, small));
+                }
+                entries.push(crate::frame::entry_bytes(201, 4 * (BLOCK - 7) + 10));
+                entries.push(crate::frame::entry_bytes(202, small));
+                entries.push(crate::frame::entry_bytes(203, BLOCK));
+            }
             let start = g("start_offset").unwrap_or(0);
             if start >= 7 {
                 entries.push((0..start - 7).map(|i| ((9 * 53 + i * 7) % 251 + 1) as u8).collect());
